@@ -11,6 +11,8 @@ import (
 	"sort"
 	"strconv"
 	"strings"
+
+	"golang.org/x/tools/go/ssa"
 )
 
 type propCheck struct {
@@ -25,6 +27,8 @@ type Ctx struct {
 	Tier string
 	Ops  *OpTable
 	Lex  *LexTable
+
+	modFuncs []*ssa.Function
 }
 
 var checks = map[string]*propCheck{}
